@@ -19,7 +19,9 @@ every data string <= peer max packet when that is >= 4096.
 
 Family "rcv" (tested side receives): the puppet sends CHANNEL_DATA / EXTENDED_DATA(1) within the window
 and packet size the tested side advertised; the application (harness main thread, one call at a time)
-calls recv / recv_stderr with generated sizes. After every step a sentinel round trip makes the log
+calls recv / recv_stderr with generated sizes and set_combine_stderr(True / False) at generated moments (stderr data of
+any amount - below, around and above the window//10 grant threshold - may sit unread in the buffer at that moment:
+moving it into the stdout buffer is not consumption). After every step a sentinel round trip makes the log
 complete. Oracle at every step: sum(WINDOW_ADJUST sent by the tested side) <= bytes returned to the
 application so far. Client role also: the CHANNEL_OPEN advertises exactly the clamped request
 (window into [32768, 2^32-1], packet into [4096, 2^32-1]).
@@ -31,7 +33,7 @@ Family "e4snd": 2-3 application tasks (send / send_stderr / sendall / sendall_st
 the window matters) || one transport task delivering WINDOW_ADJUSTs through the real handler. Same history
 invariant, evaluated on the scheduler's totally ordered event log (adjust noted before it is delivered).
 Family "e4rcv": transport task feeding DATA / EXTENDED_DATA(1) within the advertised window || 1-2 application
-tasks calling recv / recv_stderr. At the moment every WINDOW_ADJUST reaches the transport's send point:
+tasks calling recv / recv_stderr / set_combine_stderr(True|False). At the moment every WINDOW_ADJUST reaches the transport's send point:
 sum(adjusts incl. this one) <= bytes fed - bytes still in the two pipes (= what applications took out).
 """
 import socket
@@ -50,12 +52,12 @@ RULE = (
     "E3 puppet + E4 scheduler. snd: role x (window, max_packet) from {0,1,4095,4096,4097,32768,2^20,2^32-1}^2 x 1-4 sender threads (send/send_stderr/"
     "sendall/sendall_stderr, 0..200 KiB, blocking/timeout/non-blocking) x WINDOW_ADJUST plan (0,1,small,medium,2^32-1; at quiescence or "
     "racing); rcv: role x requested/advertised window and packet sizes across the clamp boundaries x generated interleaving of puppet "
-    "data/extended data (within the advertised window) and application recv/recv_stderr sizes; non-trivial = snd: offered bytes > "
+    "data/extended data (within the advertised window), application recv/recv_stderr sizes and set_combine_stderr(True/False) calls; non-trivial = snd: offered bytes > "
     "initial window (a sender had to wait for an adjust) or >= 2 sender threads; rcv: at least one WINDOW_ADJUST was observed; "
     "distinct by the whole case. E4 (real Channel on a fake transport under the deterministic scheduler, lock- and line-level switch points, "
     "generated preemption lists): e4snd = window {0,1,100,4095,4096,4097,32768} x max packet x 2-3 sender tasks (sizes 0..9000) || "
     "transport task delivering 0-4 adjusts; e4rcv = window {32768,32769,40000} x transport task feeding <= 8 messages within the window || 1-2 "
-    "reader tasks; non-trivial as above. e4snd 'tight' sub-family: 2-3 tasks with one blocking call each (sizes at/above a window from "
+    "reader tasks (recv / recv_stderr / set_combine_stderr); non-trivial as above. e4snd 'tight' sub-family: 2-3 tasks with one blocking call each (sizes at/above a window from "
     "{1,100,4095,4096,4097}), no adjust before the final grant, preemptions directed at the switch points of _send between leaving the channel "
     "lock and the transmit (two senders allotted the same window bytes)"
 )
@@ -299,6 +301,15 @@ def run_rcv(ctx, case):
                     n -= k
                     credit -= k
                     sent += k
+            elif kind == "combine":
+                # every earlier message has been processed (sentinel round trip of the previous step), so this is what
+                # the application left unread on the stderr stream at the moment it flips combining
+                unread = len(chan.in_stderr_buffer)
+                chan.set_combine_stderr(bool(n))
+                if n and unread:
+                    classes.append("rcv:combine-on-with-unread-stderr:%s-grant-threshold" % ("above" if unread > adv_w // 10 else "at-or-below"))
+                else:
+                    classes.append("rcv:combine-%s" % ("on" if n else "off"))
             else:
                 f = chan.recv if kind == "recv" else chan.recv_stderr
                 ready = chan.recv_ready() if kind == "recv" else chan.recv_stderr_ready()
@@ -313,15 +324,15 @@ def run_rcv(ctx, case):
                     n_adjust += 1
             steps.append((kind, n, sent, consumed, granted))
             if granted > consumed:
-                ctx.case(case, True, classes)
+                ctx.case(case, True, sorted(set(classes)))
                 ctx.violation(
                     "grant-at-most-consumed",
-                    "%s:after-%s" % (role, "arrival" if kind in ("data", "ext") else "read"),
+                    "%s:after-%s" % (role, "arrival" if kind in ("data", "ext") else ("set_combine_stderr" if kind == "combine" else "read")),
                     case,
                     "window granted %d > consumed %d (sent %d); last steps (op, n, sent, consumed, granted): %r" % (granted, consumed, sent, steps[-4:]),
                 )
                 return
-        ctx.case(case, n_adjust >= 1, classes + (["rcv:adjust-observed"] if n_adjust else []) + ["rcv:adv-window=%d" % adv_w])
+        ctx.case(case, n_adjust >= 1, sorted(set(classes)) + (["rcv:adjust-observed"] if n_adjust else []) + ["rcv:adv-window=%d" % adv_w])
     finally:
         env.close()
 
@@ -347,10 +358,10 @@ snd_case = st.fixed_dictionaries(
 
 req_sizes_w = st.one_of(st.none(), st.sampled_from([0, 1, 32767, 32768, 32769, 40000, 65536, 100000, 2097152, 0xFFFFFFFF, 0x100000000, 1 << 40]))
 req_sizes_p = st.one_of(st.none(), st.sampled_from([0, 1, 4095, 4096, 4097, 32768, 65536, 0xFFFFFFFF, 0x100000000]))
-rcv_op = st.one_of(
-    st.tuples(st.sampled_from(["data", "data", "ext"]), st.one_of(st.sampled_from([1, 3276, 3277, 4096, 32768, 40000]), st.integers(1, 40000))),
-    st.tuples(st.sampled_from(["recv", "recv", "recv_stderr"]), st.sampled_from([1, 100, 3276, 3277, 5000, 40000, 1 << 20])),
-)
+rcv_feed_op = st.tuples(st.sampled_from(["data", "data", "ext"]), st.one_of(st.sampled_from([1, 3276, 3277, 4096, 32768, 40000]), st.integers(1, 40000)))
+rcv_read_op = st.tuples(st.sampled_from(["recv", "recv", "recv_stderr"]), st.sampled_from([1, 100, 3276, 3277, 5000, 40000, 1 << 20]))
+# ("combine", 1|0) = set_combine_stderr(True|False)
+rcv_op = st.one_of(rcv_feed_op, rcv_feed_op, rcv_read_op, rcv_read_op, st.tuples(st.just("combine"), st.sampled_from([1, 1, 0])))
 rcv_case = st.one_of(
     st.fixed_dictionaries(
         {
@@ -360,7 +371,7 @@ rcv_case = st.one_of(
             "req_p": req_sizes_p,
             "dws": st.sampled_from([None, 32768, 32768, 65537, 2097152]),
             "dmp": st.sampled_from([None, None, 4096, 32768]),
-            "ops": st.lists(rcv_op, min_size=2, max_size=60),
+            "ops": st.lists(rcv_op, min_size=6, max_size=60),
         }
     ),
     st.fixed_dictionaries(
@@ -369,7 +380,7 @@ rcv_case = st.one_of(
             "role": st.just("server"),
             "dws": st.sampled_from([32768, 32768, 32769, 65536, 65536, 100000, 2097152, 0xFFFFFFFF]),
             "dmp": st.sampled_from([4096, 4097, 32768, 65536, 0xFFFFFFFF]),
-            "ops": st.lists(rcv_op, min_size=2, max_size=60),
+            "ops": st.lists(rcv_op, min_size=6, max_size=60),
         }
     ),
 )
@@ -378,7 +389,7 @@ rcv_case = st.one_of(
 
 # ----------------------------------------------------------------------------- E4 families
 
-E4_TRACED = {"send", "send_stderr", "sendall", "sendall_stderr", "_send", "_wait_for_send_window", "_window_adjust", "recv", "recv_stderr", "_check_add_window", "_feed", "_feed_extended"}
+E4_TRACED = {"send", "send_stderr", "sendall", "sendall_stderr", "_send", "_wait_for_send_window", "_window_adjust", "recv", "recv_stderr", "_check_add_window", "_feed", "_feed_extended", "set_combine_stderr"}
 
 
 def _after_reservation(tag):
@@ -457,7 +468,7 @@ def run_e4snd(ctx, case):
 def run_e4rcv(ctx, case):
     W = case["window"]
     sch, ft, chan = _bench(case, in_window=W, in_max_packet=32768)
-    st_ = {"fed": 0, "granted": 0, "bad": None, "adjusts": 0}
+    st_ = {"fed": 0, "granted": 0, "bad": None, "adjusts": 0, "combine": set()}
     orig = ft._send_user_message
 
     def send_user_message(m):
@@ -491,7 +502,15 @@ def run_e4rcv(ctx, case):
         def body():
             for kind, n in ops:
                 try:
-                    getattr(chan, kind)(n)
+                    if kind == "set_combine_stderr":
+                        unread = len(chan.in_stderr_buffer._buffer)  # what this task sees while it holds the baton
+                        if n and unread and not chan.combine_stderr:
+                            st_["combine"].add("e4rcv:combine-on-with-unread-stderr:%s-grant-threshold" % ("above" if unread > W // 10 else "at-or-below"))
+                        else:
+                            st_["combine"].add("e4rcv:combine-%s" % ("on" if n else "off"))
+                        chan.set_combine_stderr(bool(n))
+                    else:
+                        getattr(chan, kind)(n)
                 except socket.timeout:
                     pass
 
@@ -506,7 +525,7 @@ def run_e4rcv(ctx, case):
     for name, info in res.tasks.items():
         if info.exc is not None:
             raise peers.core.HarnessError("C19 e4rcv: task %s raised %s" % (name, info.tb))
-    classes = ["e4rcv", "e4rcv:apps=%d" % len(case["apps"]), "e4rcv:outcome=" + str(res.outcome)] + (["e4rcv:adjust-observed"] if st_["adjusts"] else [])
+    classes = ["e4rcv", "e4rcv:apps=%d" % len(case["apps"]), "e4rcv:outcome=" + str(res.outcome)] + (["e4rcv:adjust-observed"] if st_["adjusts"] else []) + sorted(st_["combine"])
     ctx.case(case, st_["adjusts"] >= 1, classes)
     if st_["bad"]:
         ctx.violation("grant-at-most-consumed", "e4:apps=%d" % len(case["apps"]), case, st_["bad"])
@@ -543,12 +562,14 @@ e4snd_tight_case = st.fixed_dictionaries(
         "trace": st.sampled_from([True, False]),
     }
 )
+e4_rcv_read_op = st.tuples(st.sampled_from(["recv", "recv", "recv_stderr"]), st.sampled_from([1, 100, 3276, 3277, 5000, 40000]))
+e4_rcv_app_op = st.one_of(e4_rcv_read_op, e4_rcv_read_op, e4_rcv_read_op, st.tuples(st.just("set_combine_stderr"), st.sampled_from([1, 1, 0])))
 e4rcv_case = st.fixed_dictionaries(
     {
         "fam": st.just("e4rcv"),
         "window": st.sampled_from([32768, 32769, 40000]),
         "feeds": st.lists(st.tuples(st.sampled_from(["data", "data", "ext"]), st.one_of(st.sampled_from([1, 3276, 3277, 4096, 32768]), st.integers(1, 40000))), min_size=1, max_size=8),
-        "apps": st.lists(st.lists(st.tuples(st.sampled_from(["recv", "recv", "recv_stderr"]), st.sampled_from([1, 100, 3276, 3277, 5000, 40000])), min_size=1, max_size=6), min_size=1, max_size=2),
+        "apps": st.lists(st.lists(e4_rcv_app_op, min_size=1, max_size=6), min_size=1, max_size=2),
         "sched": S.schedule_strategy(max_pre=4, max_gap=50, max_forced=12),
         "trace": st.sampled_from([True, True, False]),
     }
@@ -563,10 +584,10 @@ def run(ctx):
     ctx.set_budget(75, 800)
     ctx.assume("window/packet sizes are uint32 on the wire; transport-wide defaults are taken from the documented range (>= 32768 / >= 4096) because the server side advertises them unclamped")
     ctx.explore(snd_case, lambda c: body(ctx, c), ctx.scale(100, 700), shrink=False)
-    ctx.explore(rcv_case, lambda c: body(ctx, c), ctx.scale(90, 550), shrink=False, seed_offset=1)
+    ctx.explore(rcv_case, lambda c: body(ctx, c), ctx.scale(140, 700), shrink=False, seed_offset=1)
     # E4: deterministic, so failing cases are shrunk
     ctx.explore(e4snd_case, lambda c: body(ctx, c), ctx.scale(600, 6000), seed_offset=2)
-    ctx.explore(e4rcv_case, lambda c: body(ctx, c), ctx.scale(300, 3000), seed_offset=3)
+    ctx.explore(e4rcv_case, lambda c: body(ctx, c), ctx.scale(500, 4000), seed_offset=3)
     ctx.explore(e4snd_tight_case, lambda c: body(ctx, c), ctx.scale(300, 3000), seed_offset=4)
 
 
